@@ -46,7 +46,17 @@
 (* recorded in _servers, _OnServersChanged(added) -> _AddSink appends a new *)
 (* node unconditionally).  Leave: _servers.pop(ep, None), then             *)
 (* _OnServersChanged(removed) -> _RemoveSink removes the first node with    *)
-(* that endpoint, if any.                                                   *)
+(* that endpoint, if any, and - as its LAST step - closes the node's        *)
+(* channel.  That Close() may raise (BadClose = the node objects whose      *)
+(* channel teardown fails): the exception travels up through               *)
+(* __RemoveServer and the leave callback into the provider's notification   *)
+(* worker, which logs it and carries on with the next notification.         *)
+(* PopFirst = TRUE is base.py as it is (the _servers entry is popped BEFORE *)
+(* the hook, so a raising Close() leaves nothing behind); FALSE is the      *)
+(* variant that looks the factory up, runs the hook and deletes the entry   *)
+(* afterwards (kept as a counterexample generator: when the hook raises the *)
+(* entry stays, the re-join of that endpoint is dropped as a duplicate and  *)
+(* a current member is not eligible: C05.membership).                       *)
 (***************************************************************************)
 EXTENDS BalancerAbs
 
@@ -54,7 +64,9 @@ CONSTANTS Eps,        \* endpoint names
           MaxNotes,   \* number of notifications in a history
           None,
           Calls,      \* calls that may be parked behind the open ({} = gate for requests not modelled)
-          GateBySubscription
+          GateBySubscription,
+          PopFirst,   \* __RemoveServer pops the _servers entry before the subclass hook (base.py as it is)
+          BadClose    \* node objects (numbered in creation order) whose channel's Close() raises
 
 VARIABLES T,         \* the provider's member set (the truth)
           opc,       \* _OpenImpl: "idle" | "spawned" | "inGet" | "sleep5" | "done"
@@ -99,11 +111,16 @@ OnJoin(st, e) ==             \* __OnServerSetJoin after the gate
   IN [s1 EXCEPT !.evs = Append(@, [e |-> "JoinDone", ep |-> e])]
 
 OnLeave(st, e) ==            \* __OnServerSetLeave after the gate
-  LET s1 == [st EXCEPT !.servers = @ \ {e}]
-      s2 == IF Len(s1.live[e]) > 0
+  LET has == Len(st.live[e]) > 0
+      \* _RemoveSink: the node leaves the heap, then its channel is closed; Close() raises
+      raises == has /\ Head(st.live[e]) \in BadClose
+      \* the entry is deleted before the hook (PopFirst) or after it - unless the hook raised
+      s1 == IF ~PopFirst /\ raises THEN st ELSE [st EXCEPT !.servers = @ \ {e}]
+      s2 == IF has
             THEN [s1 EXCEPT !.live[e] = Tail(@),
-                            !.evs = Append(@, [e |-> "CloseSeen", n |-> Head(s1.live[e])])]
+                            !.evs = Append(@, [e |-> "CloseSeen", n |-> Head(st.live[e])])]
             ELSE s1
+  \* the callback returned or raised into the provider's worker (logged): the worker carries on
   IN [s2 EXCEPT !.evs = Append(@, [e |-> "LeaveDone", ep |-> e])]
 
 Deliver(st, item) == IF item[1] = "J" THEN OnJoin(st, item[2]) ELSE OnLeave(st, item[2])
